@@ -34,6 +34,26 @@ CHECKS = {
         text="Solver-decided within bounds, not a proof; mechanism level. convert_space / convert_parbreak / convert_text with has_linebreak / count_linebreaks / repeat_n are executed from MIR over every whitespace token of up to N code points (3 quick / 4 thorough; each any White_Space scalar, so all newline characters Typst recognises): a Space token becomes a hard line break iff it holds a Typst newline, else one blank; a Parbreak with k newlines (CR LF once) becomes exactly k hard line breaks; Text is verbatim. Counterexamples are replayed as markup `a<ws>b` through format_content. Composition through nested markup, the parser and the renderer is not covered.",
         note="Trusted: mirsym encoder; lexer facts about whitespace tokens (stated in assumptions); Doc algebra contracts; typst_syntax::is_newline contract (validated natively at setup).",
         ref="DESIGN.md §5 C08"),
+    'C03': dict(
+        text="Solver-decided within bounds, mechanism level, not a proof and NOT the end-to-end statement (format o format through parser and renderer is out of reach). (1) strip(strip(s)) = strip(s) for every UTF-8 string of up to N code points (5 quick / 7 thorough). (2) comment.rs: for every block comment '/*' + up to M code points (5/7) + '*/' and each start column in {0,2}/{0,1,2,5}, the comment as laid out by align()/hang(1) and post-processed is mapped by a second block_comment pass to the same text and style. This obligation found a genuine defect (tab-only comment lines), fixed in /repo.",
+        note="Trusted: mirsym encoder; std string contracts; pretty's align/hang semantics (indent = column of comment start, +1 for hang). Outside: multiline-flavour / attach-detach / boundary reproduction, which need the parser on formatter output.",
+        ref="DESIGN.md §5 C03"),
+    'C04': dict(
+        text="Solver-decided within bounds, mechanism level, not a proof; the oracle 'output re-parses' needs the Typst parser and is NOT claimed end to end. Real MIR of ListStylist (all methods) with every ListStyle the crate builds (extracted from this run's MIR, dynamic fields symbolic, correlated fields tied), every fold style/option, child sequences <= K (2 quick / 3 thorough) of {item, line/block comment, comma, whitespace with symbolic text, hash}; convert_flow_like_iter + FlowStylist over sequences <= 3/4 with arbitrary producer results; optional_paren / convert_expr_with_optional_paren (all expression kinds) / parenthesize_if_necessary. z3 decides in the all-broken and flat-where-possible layouts: a line comment is always followed by a hard line break; delimiters balanced; a delimiter-less list holds no line break; single-element trailing separator kept; a blank exactly where both flow neighbours allow it; optional delimiters exactly in the broken layout, matching, nested by tab_spaces. Found three genuine defects (fixed). Counterexamples confirmed on a native corpus (format, re-parse).",
+        note="Trusted: mirsym encoder; typst-syntax kind tables; pretty Doc algebra and group semantics (two global layouts observed); lexer facts about line comments / whitespace tokens; item converters opaque. Which expression kinds need parentheses, chains, math and markup composition are outside.",
+        ref="DESIGN.md §5 C04"),
+    'C05': dict(
+        text="Solver-decided within bounds, not a proof. Refusal logic decided fully for the library entry points (real MIR, printer opaque): Err iff root erroneous, nothing converted before refusing, format_with_width returns the input itself on refusal. Panic freedom (overflow, slice bounds, char boundaries, unwrap, unreachable!) of strip_trailing_whitespace, has_linebreak, count_linebreaks (strings <= N code points), the comment kernels (<= M interior code points), convert_space/convert_parbreak, ListStylist and convert_flow_like_iter (child sequences <= K), optional_paren. Parser, renderer and the remaining tree-walking code are outside, as is 'bounded time'.",
+        note="Trusted: mirsym encoder; std/typst-syntax/pretty contracts; parser facts stated as assumptions.",
+        ref="DESIGN.md §5 C05"),
+    'C06': dict(
+        text="Solver-decided within bounds, mechanism level, not a proof. comment.rs: every block comment '/*' + up to M code points + '*/' keeps its line count and each line up to leading blanks of continuation lines / trailing blanks; every line comment is emitted byte-identically. Conservation: ListStylist (every ListStyle the crate builds, every fold style/option) and convert_flow_like_iter + FlowStylist over child sequences <= K: comment and item atoms appear exactly once each, in source order, in both observed layouts. Chain/plain stylists, markup- and math-level placement and 'same neighbouring words' across constructs are outside.",
+        note="Trusted: as C04.",
+        ref="DESIGN.md §5 C06"),
+    'C10': dict(
+        text="Solver-decided within bounds, kernel level, not a proof. convert_trivia_untyped / convert_verbatim_untyped / convert_literal emit the token / node text unchanged for every text of up to N code points and any kind. strip_trailing_whitespace versus literal bytes: for s = p.t.q (t any token text with non-blank first/last character) strip(s) contains t with at most the blanks directly before a line feed removed; that t itself survives is false - the KNOWN FINDING (post-processing is literal-blind; two classes, replayed through format_content, listed in known_findings.json) - and any other change of t is reported as a new violation.",
+        note="Trusted: mirsym encoder; std string contracts; Doc contracts. Typst's dedent rule on re-parse, convert_raw and lexing of numbers/identifiers are outside.",
+        ref="DESIGN.md §5 C10"),
 }
 
 NOT_APPLICABLE = {
